@@ -335,7 +335,8 @@ def main():
     t0 = time.time()
     spec = json.load(open(os.path.join(VERIF, "obligations", prop + ".json")))
     if spec.get("runs_generator"):
-        g = subprocess.run([os.path.join(VERIF, spec["runs_generator"])], stdout=subprocess.PIPE, stderr=subprocess.PIPE)
+        gen = spec["runs_generator"] if isinstance(spec["runs_generator"], list) else [spec["runs_generator"]]
+        g = subprocess.run([os.path.join(VERIF, gen[0])] + gen[1:], stdout=subprocess.PIPE, stderr=subprocess.PIPE)
         if g.returncode != 0:
             print("TOOL-ERROR property=%s run list generator failed: %s" % (prop, g.stderr.decode()[-500:])); sys.exit(2)
         spec["runs"] = spec.get("runs", []) + json.loads(g.stdout.decode())
